@@ -735,7 +735,9 @@ class TeX(object):
                 if t.catcode == Token.CC_SPACE:
                     break
                 toks.append(t)
-            return self.expandTokens(toks, parentNode=parentNode), self.source(toks)
+            res = self.expandTokens(toks, parentNode=parentNode)
+            ParameterCommand.enable()
+            return res, self.source(toks)
 
         if type in ['cs']:
             expanded = False
